@@ -9,7 +9,7 @@ Base == [classes |-> {"A"}, methods |-> {"pt", "n"}, consts |-> {<<"int", 1, 1>>
          not |-> FALSE, boolConst |-> FALSE, ifexp |-> FALSE, aggs |-> {}, first |-> FALSE,
          index |-> FALSE, math |-> {}, colls |-> {<<"A", "bk1">>}, select |-> TRUE, where |-> TRUE,
          selectmany |-> FALSE, range |-> FALSE, rows |-> {"seq"}, topmid |-> {},
-         topwhere |-> FALSE, evwhere |-> FALSE, rootnames |-> {}, start |-> "top", boolAsNum |-> FALSE]
+         topwhere |-> FALSE, evwhere |-> FALSE, rootnames |-> {}, start |-> "top", boolAsNum |-> FALSE, mindone |-> 0]
 
 \* C01 core: the LINQ operators and their compositions
 ProfCore == [Base EXCEPT !.classes = {"A", "T"}, !.methods = {"pt", "n", "trks", "vals"},
@@ -35,6 +35,10 @@ ProfArith == [Base EXCEPT !.methods = {"pt", "m", "n", "ok"}, !.consts = {<<"int
 
 \* C13 core table: every binary / comparison operator over every pair of operand kinds, exhaustively
 ProfArithTable == [ProfArith EXCEPT !.unops = {}, !.not = FALSE, !.aggs = {"Count"}, !.ifexp = FALSE, !.boolConst = FALSE]
+
+\* C08 (simulation): deep chains of Where/Select/Count over nested sequences, where shadowing matters
+ProfShadow == [Base EXCEPT !.classes = {"A", "T"}, !.methods = {"pt", "trks"}, !.aggs = {"Count"},
+                 !.rows = {"seq"}, !.mindone = 14]
 
 \* C04: partial operations (First, index, link dereference) under guards
 ProfFault == [Base EXCEPT !.methods = {"pt", "vals", "link"}, !.consts = {<<"int", 0, 1>>},
